@@ -371,6 +371,21 @@ func (p *pair) followerDied(phase string, out *outcome) bool {
 	return true
 }
 
+// wipeFollower replaces the follower by one with an empty disk: the process is
+// killed, its log and queue are deleted (the config with the leader's address
+// stays), and it is started again. It re-attaches from position 0.
+func (p *pair) wipeFollower() error {
+	p.F.Kill()
+	os.Remove(filepath.Join(p.fdir, "appendonly.aof"))
+	os.Remove(filepath.Join(p.fdir, "queue.db"))
+	F, err := startFollowerProc(p.fdir)
+	if err != nil {
+		return err
+	}
+	p.F = F
+	return nil
+}
+
 func aofInode(path string) uint64 {
 	fi, err := os.Stat(path)
 	if err != nil {
@@ -474,6 +489,15 @@ func (p *pair) syncCheck(phase string, out *outcome, budget time.Duration, force
 	}()
 	polls := 0
 	var tReconn time.Time
+	// "caught up, idle and lacking": since when the follower has claimed
+	// caught-up/healthy at every poll without holding the marker, with an
+	// unchanged log size
+	var lackingSince time.Time
+	var lackingSize int64 = -1
+	quiet := 10 * time.Second
+	if budget/2 < quiet {
+		quiet = budget / 2
+	}
 	for {
 		if time.Now().After(deadline) {
 			out.inconclusive = fmt.Sprintf("%s: follower made no binding caught-up claim within %v (%d polls)", phase, budget, polls)
@@ -524,6 +548,34 @@ func (p *pair) syncCheck(phase string, out *outcome, budget time.Duration, force
 		if !st.following {
 			out.inconclusive = phase + ": follower is not following (harness error)"
 			return
+		}
+		if claim && !markerSeen && (lackingSince.IsZero() || st.aofSize != lackingSize) {
+			lackingSince, lackingSize = time.Now(), st.aofSize
+		} else if !claim || markerSeen {
+			lackingSince, lackingSize = time.Time{}, -1
+		}
+		if !lackingSince.IsZero() && !binding && time.Since(lackingSince) >= quiet {
+			// The leader acknowledged the marker long ago and is silent. The follower's
+			// replication stream is open and nothing has moved on it for the whole
+			// window (the proxy holds nothing, no stall, no outage), its log does not
+			// grow, and all the while it says caught-up / healthy without having the
+			// marker: it reports caught-up on a quiescent leader, the datasets differ
+			// and stay different.
+			if open, idle, ok := p.px.StreamIdle(); ok && open && idle >= quiet {
+				if _, perr := p.lc.Do("PING"); perr == nil {
+					diff := "(follower dump failed)"
+					if fdump, derr := t38.TakeDumpOn(fc); derr == nil {
+						diff = ldump.Diff(fdump)
+					}
+					if diff != "" {
+						out.claimsCheckd++
+						out.vioKey = "mismatch:caught-up-but-never-fed"
+						out.vioWhat = fmt.Sprintf("%s: for %v the follower has answered caught_up=%v healthz=%v with an unchanged aof_size=%d (leader %d) and without the leader's last acknowledged command, while its replication stream (resume pos=%d) was open and completely idle and the leader quiescent: caught-up, yet the datasets differ and stay different (A=leader, B=follower): %s",
+							phase, time.Since(lackingSince).Round(time.Second), st.caughtUp, healthy, st.aofSize, lst.aofSize, lastPos, diff)
+						return
+					}
+				}
+			}
 		}
 		if claim && binding {
 			out.claimsCheckd++
@@ -794,7 +846,7 @@ func runCase(cs *caseSpec, ro runOpts) (out *outcome) {
 			}
 		}
 		switch st.Kind {
-		case stRestart, stCut, stDown, stRefollow, stDetachWr, stSplit, stCutMD5:
+		case stRestart, stCut, stDown, stRefollow, stDetachWr, stSplit, stCutMD5, stShrinkBacklog:
 			reconnAfter = p.px.Accepted()
 		}
 		reqsBefore := -1
@@ -852,6 +904,44 @@ func runCase(cs *caseSpec, ro runOpts) (out *outcome) {
 			p.px.Down(time.Duration(st.Ms) * time.Millisecond)
 		case stSlow:
 			p.px.SetLink(linkProfile{Delay: time.Duration(st.Ms) * time.Millisecond, Chunk: st.Chunk, Gap: time.Duration(st.GapMs) * time.Millisecond})
+		case stShrinkBacklog:
+			if _, err := apply(p.lc, st.Cmds); err != nil {
+				out.inconclusive = phase + ": " + err.Error()
+				return
+			}
+			p.px.SetLink(linkProfile{Delay: time.Duration(st.Ms) * time.Millisecond})
+			if err := p.wipeFollower(); err != nil {
+				out.inconclusive = phase + ": " + err.Error()
+				return
+			}
+			// the swap must fall into the backlog copy: wait for the AOF request first
+			for dl := time.Now().Add(ro.budget); time.Now().Before(dl) && p.F.Alive(); time.Sleep(2 * time.Millisecond) {
+				if yes, _ := p.px.Reconnected(reconnAfter); yes {
+					break
+				}
+			}
+			if p.shrinkIno == 0 {
+				if f, err := os.Open(p.L.AOFPath()); err == nil {
+					p.shrinkOld = f
+					p.shrinkIno = aofInode(p.L.AOFPath())
+				}
+			}
+			if v, err := p.lc.Do("AOFSHRINK"); err != nil || v.IsErr() {
+				out.inconclusive = fmt.Sprintf("%s: %v %s", phase, err, v.String())
+				return
+			}
+			if err := p.waitShrink(30 * time.Second); err != nil {
+				out.inconclusive = phase + ": " + err.Error()
+				return
+			}
+			if open, _, ok := p.px.StreamIdle(); ok && open {
+				out.label("shrink-swap-during-held-backlog")
+			}
+			if _, err := apply(p.lc, st.LCmds); err != nil {
+				out.inconclusive = phase + ": " + err.Error()
+				return
+			}
+			p.px.SetLink(linkProfile{})
 		case stShrink:
 			if p.shrinkIno == 0 {
 				if f, err := os.Open(p.L.AOFPath()); err == nil {
